@@ -523,3 +523,14 @@ Proof.
     destruct Hq as [Hq Hk]. apply andb_prop in Hq. destruct Hq as [Hm Hn].
     apply N.eqb_eq in Hm, Hn. apply acc_eqb_eq in Hk. subst. exists r, b. auto.
 Qed.
+
+(** the block-level verdict of the C23 case files (Model/GraphMem.v) accepts only memory-edge
+    lists that satisfy the block-level specification *)
+From QV Require Import Model.GraphMem.
+
+Lemma block_verdict_sound is term M :
+  block_verdict is term M = 0%N -> mem_block_spec is term (as_gedges M).
+Proof.
+  unfold block_verdict. destruct (chk_mem_block is term (as_gedges M)) eqn:H; cbn [negb]; [|discriminate].
+  intros _. now apply chk_mem_block_sound.
+Qed.
